@@ -227,7 +227,7 @@ class PriceIdentity(Lemma):
 
 class PriceLoop(FunctionContract):
     """multilevel Engine.price, single process: the adaptive `while` loop under an inductive invariant, for ANY number of
-    passes (the number of levels is enumerated: initial level 1 or 2, maximum level initial + 1; per-level counts are
+    passes (the number of levels is enumerated: (initial, maximum) level in (0,1), (1,2), (1,3), (2,3), (2,4); per-level counts are
     symbolic).  The per-level routine, the statistics container, the stopping criteria and the level processes are
     replaced by their contracts / ledger events:
       compute_level_l(level, current, extra)   requires  rows [current, current + extra) exist and rows below current are the
@@ -242,8 +242,8 @@ class PriceLoop(FunctionContract):
     prop = "C05"
     target = EN + "Engine.price"
     name = "multilevel.Engine.price[adaptive loop]"
-    cases = ((1, 2), (2, 3))
-    max_paths = 6000
+    cases = ((1, 2), (2, 3), (1, 3), (0, 1), (2, 4))
+    max_paths = 20000
 
     def __init__(self):
         def pick_L(path, g):
